@@ -70,6 +70,78 @@ Qed.
 Example C13_dots : dot_or_dotdot (b ".") = true /\ dot_or_dotdot (b "..") = true /\ dot_or_dotdot (b "...") = false.
 Proof. repeat split. Qed.
 
+(* ---- the functional statement, on the DYNAMIC kernel model (theories/Dyn.v) ---------------------
+   [rm_all] is a pure function of the tree (and of the fuel that bounds recursion depth, scan rounds
+   and directory size): unlink / rmdir of the entry, else -- a non-empty directory -- scan rounds
+   over its listing with the recursion into each entry, then the directory itself.
+   1. dir.rs remove_all, executed on the dynamic kernel, computes it, and leaves the descriptor
+      table and the set of directory streams exactly as they were; 2. RootRef::remove_all = parent
+      lookup (either backend) ; rm_all; 3. for ANY tree: rm_all adds and modifies nothing
+      ([shrinks]), every entry that disappears lies BENEATH the named entry -- reached through real
+      directories, never through a link --, and a reported success means the named entry is gone. *)
+From PV Require Dyn DynProofs DynMkdir DynRemove DynEffects.
+
+Theorem C13_remove_all_computes_spec :
+  forall rp fz, fz <> 0%nat -> forall fuel s t seen dirfd d name,
+  DynRemove.ents_ok s -> DynRemove.seen_ok t seen -> Static.tget t dirfd = Some d -> (d < Dyn.NPB s)%nat ->
+  has_nul name = false -> is_nil name = false ->
+  Dyn.drun rp {| Dyn.ds := s; Dyn.dt := t; Dyn.dseen := seen |} (remove_all fz fuel dirfd name) =
+  match DynRemove.rm_all fuel s d name with
+  | None => Dyn.DNoFuel
+  | Some (s', r) => Dyn.DDone {| Dyn.ds := s'; Dyn.dt := t; Dyn.dseen := seen |} r
+  end.
+Proof. exact DynRemove.remove_all_dyn. Qed.
+
+Theorem C13_root_remove_all_exact :
+  forall s rp fz pfuel o2 gh ps rs, fz <> 0%nat -> forall rfuel t root path t1 dir name o,
+  DynEffects.parent_ok s rp fz pfuel o2 gh ps rs t root path t1 dir name o -> DynRemove.ents_ok s ->
+  has_nul name = false -> is_nil name = false ->
+  Dyn.drun rp {| Dyn.ds := s; Dyn.dt := t; Dyn.dseen := [] |} (root_remove_all fz o2 pfuel gh ps rfuel rs root path) =
+  match DynRemove.rm_all rfuel s o name with
+  | None => Dyn.DNoFuel
+  | Some (s', r) => Dyn.DDone {| Dyn.ds := s'; Dyn.dt := Static.tdel t1 dir; Dyn.dseen := [] |} r
+  end.
+Proof. exact DynRemove.root_remove_all_exact. Qed.
+
+(* nothing is added, no object or parent pointer modified: the entries afterwards are among those before *)
+Theorem C13_spec_only_removes :
+  forall fuel s d name s' r, DynRemove.rm_all fuel s d name = Some (s', r) ->
+  FSModel.kinds s' = FSModel.kinds s /\ FSModel.parents s' = FSModel.parents s /\ incl (FSModel.ents s') (FSModel.ents s).
+Proof. exact DynRemove.rm_all_shrinks. Qed.
+
+(* whatever disappears is the named entry or lies beneath the directory under that name (success or failure) *)
+Theorem C13_spec_removes_only_beneath :
+  forall fuel s d name s' r, DynRemove.rm_all fuel s d name = Some (s', r) ->
+  forall e, In e (FSModel.ents s) -> ~ In e (FSModel.ents s') -> DynRemove.under s d name e.
+Proof. intros fuel s d name s' r H. exact (DynRemove.rm_all_only fuel s s d name s' r (DynRemove.shrinks_refl s) H). Qed.
+
+Theorem C13_spec_success_means_gone :
+  forall fuel s d name s', Dyn.plain name = true ->
+  DynRemove.rm_all fuel s d name = Some (s', Ok tt) -> FSModel.lookup s' d name = None.
+Proof. exact DynRemove.rm_all_gone. Qed.
+
+(* executed (non-vacuity): a/ has a sub-directory with a file, a link to a sibling and a link to the
+   outside; remove_all("a") on both backends removes a and everything below, follows neither link
+   (keep/ and its content stay), returns Ok; the pure function gives the same tree; remove_all of a
+   name that does not exist is Ok and changes nothing; "a/." is refused *)
+Example C13_dynamic_runs :
+  let s := FSModel.build [FSModel.MkDir [b "keep"]; FSModel.MkFile [b "keep"; b "k"]; FSModel.MkDir [b "a"]; FSModel.MkDir [b "a"; b "sub"];
+                          FSModel.MkFile [b "a"; b "sub"; b "f"]; FSModel.MkLnk [b "a"; b "tokeep"] (b "../keep");
+                          FSModel.MkLnk [b "a"; b "sub"; b "out"] (b "../../..")] in
+  let gh := {| ph_fd := 4; ph_mnt := Some Static.PROC_MNT; ph_subset := false; ph_openat2 := true |} in
+  let st := {| Dyn.ds := s; Dyn.dt := [(5%Z, FSModel.ROOT); (4%Z, Static.PB s)]; Dyn.dseen := [] |} in
+  let emu := {| rs_kernel := false; rs_flags := 0 |} in let kern := {| rs_kernel := true; rs_flags := 0 |} in
+  let tree {A} (o : Dyn.doutcome A) := match o with Dyn.DDone st' _ => map (fun e => fst (fst e)) (Dyn.dump (Dyn.ds st')) | _ => [] end in
+  let res {A} (o : Dyn.doutcome A) := match o with Dyn.DDone st' a => Some (a, Dyn.dt st', Dyn.dseen st') | _ => None end in
+  let want := [[b "keep"]; [b "keep"; b "k"]] in
+  tree (Dyn.drun (b "/srv/root") st (root_remove_all 1 true 2 gh 1 12 kern 5 (b "a"))) = want /\
+  tree (Dyn.drun (b "/srv/root") st (root_remove_all 1 true 2 gh 1 12 emu 5 (b "keep/../a"))) = want /\
+  res (Dyn.drun (b "/srv/root") st (root_remove_all 1 true 2 gh 1 12 kern 5 (b "a"))) = Some (Ok tt, Dyn.dt st, []) /\
+  (match DynRemove.rm_all 12 s FSModel.ROOT (b "a") with Some (s', r) => Some (map (fun e => fst (fst e)) (Dyn.dump s'), r) | None => None end) = Some (want, Ok tt) /\
+  (match DynRemove.rm_all 12 s FSModel.ROOT (b "nothing") with Some (s', r) => Some (FSModel.ents s', r) | None => None end) = Some (FSModel.ents s, Ok tt) /\
+  res (Dyn.drun (b "/srv/root") st (root_remove_all 1 true 2 gh 1 12 kern 5 (b "a/."))) = Some (Err InvalidArgument, Dyn.dt st, []).
+Proof. vm_compute. repeat split. Qed.
+
 Print Assumptions C13_dot_refused.
 Print Assumptions C13_slash_refused.
 Print Assumptions C13_links_not_followed.
@@ -77,3 +149,8 @@ Print Assumptions C13_root_op_disciplined.
 Print Assumptions C13_balanced.
 Print Assumptions C13_stays_beneath.
 Print Assumptions C13_beneath_monitor_sound.
+Print Assumptions C13_remove_all_computes_spec.
+Print Assumptions C13_root_remove_all_exact.
+Print Assumptions C13_spec_only_removes.
+Print Assumptions C13_spec_removes_only_beneath.
+Print Assumptions C13_spec_success_means_gone.
